@@ -669,7 +669,7 @@ def validate(scn: Scenario, traces: List[Dict[str, Any]], timeout_s: int = 900, 
         json.dump({"traces": [{"init": t["init"], "events": t["events"]} for t in traces]}, f)
     cfg = tlc.make_cfg(spec="TraceSpec", constants=dict(scn_constants(scn), TableDamaged=scn.damage is not None), constraints=["Progress"],
                        postcondition="Verdicts", check_deadlock=False)
-    res = tlc.run_tlc("TraceScn", cfg, wd=wd, workers=1, timeout_s=timeout_s, env={"TRACE_FILE": tf},
+    res = tlc.run_tlc("TraceScn", cfg, wd=wd, workers=1, timeout_s=timeout_s, env={"TRACE_FILE": tf}, coverage=True,
                       label=f"Trace_L1[{scn.name}] x{len(traces)}", keep_wd=keep)
     if res.violated or res.timed_out:
         raise MachineryError(f"trace validation run failed: {res.violated} timed_out={res.timed_out}\n{res.error_trace[:3000]}")
